@@ -280,7 +280,7 @@ impl World {
     pub fn next_epoch(&mut self) {
         self.model.epoch += 1;
         self.model.ws_touchers.clear();
-        self.model.del_neighbors.clear();
+
     }
 
     // -------------------------------------------------------------- observation
